@@ -1,6 +1,7 @@
 import HcipyVerif.Lemmas.FftPipeline
 import HcipyVerif.Lemmas.FourierC02
 import HcipyVerif.Lemmas.FourierC02R4
+import HcipyVerif.Lemmas.ZoomN
 
 /-!
 # C02 — Fourier forward/backward are inverse, adjoint and energy-consistent
@@ -235,16 +236,6 @@ theorem full_grid_inverse_2d (gy gx : Cfg ℝ ℂ) (woy wox : ℂ) (hemu : gy.em
   rw [e]
   exact full_grid_inverse gy woy hMoy hNy hcy hwy (fun iy => f iy jx) jy hjy
 
-/-- the input weight of a consistent pair with non-negative output weight is non-negative -/
-theorem wr_nonneg (g : Cfg ℝ ℂ) (wr wo : ℝ) (hgw : g.w = (wr : ℂ))
-    (hw : (wo : ℂ) * (g.M : ℂ) * g.w = 1) (hwo : 0 ≤ wo) : 0 ≤ wr := by
-  rw [hgw] at hw
-  have h : wo * (g.M : ℝ) * wr = 1 := by exact_mod_cast hw
-  by_contra hneg
-  have h1 : wo * (g.M : ℝ) * wr ≤ 0 :=
-    mul_nonpos_of_nonneg_of_nonpos (mul_nonneg hwo (Nat.cast_nonneg _)) (le_of_lt (not_le.mp hneg))
-  linarith
-
 /-- **Cropped 2-D FFT grid: the output energy never exceeds the input energy** (the 1-D
 inequality along `y` for every output column, then along `x` for every input row). -/
 theorem cropped_energy_le_2d (gy gx : Cfg ℝ ℂ) (wry woy wrx wox : ℝ) (hemu : gy.emu = gx.emu)
@@ -469,6 +460,119 @@ theorem zoom_axis_adjoint (n m nfft nfftInv : ℕ) (hok : ZoomAxisOK n m nfft nf
     (fun k j => expE (-((u0 + (k : ℝ) * Δ) * (x0 + (j : ℝ) * δ)))) win wout hwout X Y
   simp only [expE_conj, neg_neg] at h
   exact h
+
+/-! ## Adjointness on `n` axes: the iterated FFT pipelines and the ZoomFFT axis loop with weights
+
+Inner products are sums over index lists (`sumOverN dims`, Model/FftIndexN.lean — the same
+iterated sum the `n`-D defining sums of C01 are written with). -/
+
+/-- **`n`-axis FastFourierTransform: `backward` is the adjoint of `forward`** for the iterated
+pipelines `fastForwardN` / `fastBackwardN`, any number of axes, padding and cropping allowed on
+every axis (`N ≤ M`, `Mo ≤ M`), both shift settings, in the weighted inner products of the two
+grids (input weight `Π w_i`, output weight `Π wo_i` with `wo_i` real, `wo_i·M_i·w_i = 1`). -/
+theorem fast_adjoint_nd (wo : Cfg ℝ ℂ → ℝ) (gs : List (Cfg ℝ ℂ))
+    (hgs : ∀ g ∈ gs, g.N ≤ g.M ∧ g.Mo ≤ g.M ∧ g.dT * (g.M : ℝ) * g.δ = 1 ∧
+      ((wo g : ℝ) : ℂ) * (g.M : ℂ) * g.w = 1)
+    (X Y : List ℕ → ℂ) :
+    sumOverN (gs.map fun g => g.Mo) (fun ks =>
+        conj (Y ks) * fastForwardN expT expE gs X ks * weightOutN (fun g => ((wo g : ℝ) : ℂ)) gs)
+      = sumOverN (gs.map fun g => g.N) (fun js =>
+        conj (fastBackwardN expT expE gs Y js) * X js * weightN gs) := by
+  have hL := sumOverN_congr (gs.map fun g => g.Mo)
+    (fun ks => conj (Y ks) * fastForwardN expT expE gs X ks * weightOutN (fun g => ((wo g : ℝ) : ℂ)) gs)
+    (fun ks => conj (Y ks) * (sumOverN (gs.map fun g => g.N) fun js =>
+      X js * weightN gs * (expT (-(dotA gs ks js)) * expE (-(dotS gs js))))
+        * weightOutN (fun g => ((wo g : ℝ) : ℂ)) gs) (by
+      intro ks hks
+      rw [fastForwardN_eq_sumForwardN expT_isChar expE_isChar expT_period gs
+        (fun g hg => ⟨(hgs g hg).1, (hgs g hg).2.1, (hgs g hg).2.2.1⟩) X ks
+        (List.forall₂_map_right_iff.mp hks)]
+      rfl)
+  have hR := sumOverN_congr (gs.map fun g => g.N)
+    (fun js => conj (fastBackwardN expT expE gs Y js) * X js * weightN gs)
+    (fun js => conj (sumOverN (gs.map fun g => g.Mo) fun ks =>
+      Y ks * weightOutN (fun g => ((wo g : ℝ) : ℂ)) gs
+        * conj (expT (-(dotA gs ks js)) * expE (-(dotS gs js)))) * X js * weightN gs) (by
+      intro js hjs
+      rw [fastBackwardN_eq_sumBackwardN expT_isChar expE_isChar expT_period
+        (fun g => ((wo g : ℝ) : ℂ)) gs
+        (fun g hg => ⟨(hgs g hg).1, (hgs g hg).2.1, (hgs g hg).2.2.1, (hgs g hg).2.2.2⟩) Y js
+        (List.forall₂_map_right_iff.mp hjs)]
+      simp only [sumBackwardN, map_mul, expT_conj, expE_conj, neg_neg])
+  rw [hL, hR]
+  exact adjoint_sumOverN _ _ (fun ks js => expT (-(dotA gs ks js)) * expE (-(dotS gs js)))
+    (fun _ => weightN gs) (fun _ => weightOutN (fun g => ((wo g : ℝ) : ℂ)) gs)
+    (fun _ => conj_weightOutN_real wo gs) X Y
+
+/-- satisfiability of the hypothesis bundle of `fast_adjoint_nd`: two axes, one padded and cropped
+(`N = 2, M = 4, Mo = 3`), one full (`N = M = Mo = 2`), `δ = w = 1/2`, `wo = dT = 1/(M·δ)` -/
+example : ∃ (wo : Cfg ℝ ℂ → ℝ) (gs : List (Cfg ℝ ℂ)), gs.length = 2 ∧
+    ∀ g ∈ gs, g.N ≤ g.M ∧ g.Mo ≤ g.M ∧ g.dT * (g.M : ℝ) * g.δ = 1 ∧
+      ((wo g : ℝ) : ℂ) * (g.M : ℂ) * g.w = 1 :=
+  ⟨fun g => g.dT,
+    [{ N := 2, M := 4, Mo := 3, δ := 1 / 2, z := 0, dT := 1 / 2, s := 0, w := ((1 / 2 : ℝ) : ℂ), emu := true },
+     { N := 2, M := 2, Mo := 2, δ := 1 / 2, z := 1, dT := 1, s := 1 / 3, w := ((1 / 2 : ℝ) : ℂ), emu := true }],
+    rfl, by
+      intro g hg
+      simp only [List.mem_cons, List.not_mem_nil, or_false] at hg
+      rcases hg with rfl | rfl
+      · refine ⟨by norm_num, by norm_num, by norm_num, ?_⟩
+        push_cast; norm_num
+      · refine ⟨by norm_num, by norm_num, by norm_num, ?_⟩
+        push_cast; norm_num⟩
+
+/-- **Full `n`-D FFT grid pair: Parseval** — `Σ_ks |F f|²·Π wo_i = Σ_js |f|²·Π w_i` (written with
+`conj a * a`) for the iterated pipeline on any number of full, consistent axes; from
+`fast_adjoint_nd` with `Y = F f` and `full_grid_inverse_nd`. -/
+theorem parseval_full_nd (wo : Cfg ℝ ℂ → ℝ) (gs : List (Cfg ℝ ℂ))
+    (hgs : ∀ g ∈ gs, FullAxis (fun g => ((wo g : ℝ) : ℂ)) g) (f : List ℕ → ℂ) :
+    sumOverN (gs.map fun g => g.Mo) (fun ks =>
+        conj (fastForwardN expT expE gs f ks) * fastForwardN expT expE gs f ks
+          * weightOutN (fun g => ((wo g : ℝ) : ℂ)) gs)
+      = sumOverN (gs.map fun g => g.N) (fun js => conj (f js) * f js * weightN gs) := by
+  rw [fast_adjoint_nd wo gs (fun g hg => by
+    obtain ⟨hMo, hN, hc, hw⟩ := hgs g hg
+    exact ⟨hN, le_of_eq hMo, hc, hw⟩) f (fastForwardN expT expE gs f)]
+  apply sumOverN_congr
+  intro js hjs
+  rw [full_grid_inverse_nd _ gs hgs f js (List.forall₂_map_right_iff.mp hjs)]
+
+/-- **`n`-axis ZoomFastFourierTransform: `backward` is the adjoint of `forward`** — the axis loops
+`zoomForwardN` (on `field·input_weights`) and `zoomBackwardN` (on `field·output_weights`) of
+Model/ZoomN.lean, any list of axes, any two regular grids, per-point weights (output weights
+real), every `nfft ≥ n + m − 1` on every axis. -/
+theorem zoom_adjoint_nd (axs : List (ZAx ℝ))
+    (hok : ∀ a ∈ axs, ZoomAxisOK a.n a.m a.nfft a.nfftInv)
+    (win wout : List ℕ → ℂ) (hwout : ∀ ks, conj (wout ks) = wout ks) (X Y : List ℕ → ℂ) :
+    sumOverN (axs.map fun a => a.m) (fun ks =>
+        conj (Y ks) * zoomForwardN expE axs win X ks * wout ks)
+      = sumOverN (axs.map fun a => a.n) (fun js =>
+        conj (zoomBackwardN expE axs wout Y js) * X js * win js) := by
+  have hL := sumOverN_congr (axs.map fun a => a.m)
+    (fun ks => conj (Y ks) * zoomForwardN expE axs win X ks * wout ks)
+    (fun ks => conj (Y ks) * (sumOverN (axs.map fun a => a.n) fun js =>
+      X js * win js * expE (-(dotUX axs ks js))) * wout ks) (by
+      intro ks hks
+      rw [zoomN_eq_sumN expE_isChar two_ne_zero axs
+        (fun a ha => ⟨(hok a ha).1, (hok a ha).2.2.1⟩) win X ks (List.forall₂_map_right_iff.mp hks)]
+      rfl)
+  have hR := sumOverN_congr (axs.map fun a => a.n)
+    (fun js => conj (zoomBackwardN expE axs wout Y js) * X js * win js)
+    (fun js => conj (sumOverN (axs.map fun a => a.m) fun ks =>
+      Y ks * wout ks * conj (expE (-(dotUX axs ks js)))) * X js * win js) (by
+      intro js hjs
+      rw [zoomN_backward_eq_sumN expE_isChar two_ne_zero axs
+        (fun a ha => ⟨(hok a ha).2.1, (hok a ha).2.2.2⟩) wout Y js (List.forall₂_map_right_iff.mp hjs)]
+      simp only [zoomSumBackwardN, expE_conj, neg_neg])
+  rw [hL, hR]
+  exact adjoint_sumOverN _ _ (fun ks js => expE (-(dotUX axs ks js))) win wout hwout X Y
+
+/-- satisfiability of the hypothesis of `zoom_adjoint_nd`: two axes -/
+example : ∃ axs : List (ZAx ℝ), axs.length = 2 ∧ ∀ a ∈ axs, ZoomAxisOK a.n a.m a.nfft a.nfftInv :=
+  ⟨[⟨2, 3, 4, 4, 0, 1, 0, 1⟩, ⟨3, 2, 5, 4, -1, 1 / 2, 0, 1⟩], rfl, by
+    intro a ha
+    simp only [List.mem_cons, List.not_mem_nil, or_false] at ha
+    rcases ha with rfl | rfl <;> exact ⟨by norm_num, by norm_num, by norm_num, by norm_num⟩⟩
 
 /-! ## Matrix-valued FourierFilter (`fourier_operations.py`, `_operation`, matrix-field branch) -/
 
